@@ -171,8 +171,10 @@ def el_json(e):
         value = dict(c="pred", **pred_json(e.value.fn))
     elif isinstance(e.value, int):
         value = {"c": "eq", "v": e.value, "oid": 0}
+    elif type(e.value).__name__ == "_Receiver":
+        value = {"c": "is", "v": getattr(e.value.obj, "v", 0), "oid": id(e.value.obj) % 1000003}
     else:
-        value = {"c": "is", "v": getattr(e.value, "v", 0), "oid": id(e.value) % 1000003}
+        value = {"c": "eq", "v": getattr(e.value, "v", 0), "oid": id(e.value) % 1000003}
     return {"name": e.name, "category": None if e.category is None else e.category.name,
             "capture": e.capture, "focus": 1 in e.tags, "tag2": 2 in e.tags, "value": value}
 
